@@ -725,6 +725,7 @@ func (ex *Exec) specCall(x ECall, env *SpecEnv) Val {
 			if a.GoType() == nilType {
 				a = ex.zeroVal(pt)
 			}
+			a = ex.coerceToType(a, pt)
 			t := ex.scalar(a)
 			if t.Sort != sortOf(pt) {
 				ex.specFail("argument %d of %s has the wrong sort", i, sf.Name)
@@ -759,10 +760,11 @@ func (ex *Exec) specCall(x ECall, env *SpecEnv) Val {
 	}
 	for i, p := range sf.Params {
 		a := argv(i)
-		if a.GoType() == nilType {
-			if pt, err := ex.prog.lookupType(p.T, ctx); err == nil {
+		if pt, err := ex.prog.lookupType(p.T, ctx); err == nil {
+			if a.GoType() == nilType {
 				a = ex.zeroVal(pt)
 			}
+			a = ex.coerceToType(a, pt)
 		}
 		inner.vars[p.Name] = a
 		if inner.old != nil {
@@ -847,4 +849,15 @@ func (ex *Exec) specEqual(a, b Val) Term {
 		return Eq(ta, tb)
 	}
 	return ex.equalVals(a, b)
+}
+
+// coerceToType converts a concrete value to an interface-typed parameter (boxing), as Go's assignability does.
+func (ex *Exec) coerceToType(a Val, pt types.Type) Val {
+	if a.GoType() == nil || !isInterface(pt) || isInterface(a.GoType()) {
+		return a
+	}
+	if sc, ok := a.(Scalar); ok && sc.T.Sort == SIface {
+		return a
+	}
+	return Scalar{ex.boxIface(a, a.GoType()), pt}
 }
